@@ -297,6 +297,10 @@ fn eval_conv(t: &mut Toks) -> R<String> {
                 p2.interiors().len(),
                 proto::coords(&p2.exterior().0)
             ));
+            // the array conversions and the edge list
+            let t2: Triangle<f64> = Triangle::from([tr.0, tr.1, tr.2]);
+            let ls: Vec<Coord<f64>> = t2.to_lines().iter().flat_map(|l| [l.start, l.end]).collect();
+            out.push_str(&format!(" arr {} lines {}", proto::coords(&t2.to_array()), proto::coords(&ls)));
         }
         Geometry::Line(l) => {
             let ls: LineString<f64> = LineString::from(*l);
